@@ -131,6 +131,14 @@ def gen_case(rng: Rng, i: int, tier: str):
         entries = dup + entries[: r.randint(0, 2)]
         if r.chance(0.5):
             r.shuffle(entries)
+    ro = rng.sub("occupy")
+    links = [e["name"] for e in entries if e["kind"] == "symlink"]
+    if links and ro.chance(0.3):
+        # a later member whose output path is the place an earlier LINK occupies, under another spelling of the name (the
+        # same spelling would be renamed as a duplicate): an empty file (as other tools store it: no stream), a file, a directory
+        ln = ro.pick(links)
+        alias = ro.pick(["z/../" + ln, "./" + ln, "q/../" + ln, "z/../" + ln])
+        entries.append({"name": alias, "kind": ro.pick(["file", "file", "file", "dir"]), "data": ro.pick(["", "", "payload-o"])})
     data_n = sum(1 for e in entries if e["kind"] != "dir")
     split = r.chance(0.4) and data_n > 1
     return {"entries": entries, "multi_folder": split, "dest": r.pick(["abs", "rel", "none"]), "prepop": r.pick([None, None, "files"]),
